@@ -270,7 +270,9 @@ def tlc_states(out):
     return int(m.group(2)), int(m.group(1))   # distinct states, generated (= transitions explored)
 
 
-BAD_RE = re.compile(r'<<"(BAD|NOTE)", (-?\d+), (-?\d+), (-?\d+), <<(.*?)>>>>')
+# TLC pretty-prints a long tuple over several lines (`<< "BAD",` / `   0,` ...): the patterns tolerate any white space
+BAD_RE = re.compile(r'<<\s*"(BAD|NOTE)",\s*(-?\d+),\s*(-?\d+),\s*(-?\d+),\s*<<(.*?)>>\s*>>', re.S)
+DONE_RE = re.compile(r'<<\s*"DONE",\s*(\d+)\s*>>')
 
 
 def parse_flags(out):
@@ -280,7 +282,7 @@ def parse_flags(out):
         tags = re.findall(r'"([^"]+)"', m.group(5))
         rec = dict(run=int(m.group(2)), n=int(m.group(3)), line=int(m.group(4)), tags=tags)
         (bad if m.group(1) == 'BAD' else notes).append(rec)
-    done = re.search(r'<<"DONE", (\d+)>>', out)
+    done = DONE_RE.search(out)
     return bad, notes, (int(done.group(1)) if done else None)
 
 
